@@ -3,6 +3,8 @@ package main
 import (
 	"fmt"
 
+	"github.com/tidwall/geojson/geometry"
+
 	"verif/mc/exact"
 	"verif/mc/rt"
 )
@@ -54,6 +56,71 @@ func runC02(r *rt.Run) {
 			})
 		}
 	})
+	c02NearMiss(r)
 	r.Sample(pairCase("intersects", p.polys[7].E, p.lines[100].E, ident, ""))
 	r.Sample(pairCase("intersects", p.holed[3].E, p.hPolys[5].E, ident, ""))
+}
+
+// c02NearMiss: long segments (coordinates up to 2^20) that pass the end of a
+// line or the corner of a square at a distance of about 1/N, and the
+// matching exact hits: a tolerance in the kernels can only show here. The
+// oracle uses orientation predicates only (int64-exact at this magnitude).
+func c02NearMiss(r *rt.Run) {
+	w := r.Worker()
+	segBox := func(a, b exact.P, n int64) bool { // closed segment meets the closed square [0,n]^2
+		in := func(p exact.P) bool { return p.X >= 0 && p.X <= n && p.Y >= 0 && p.Y <= n }
+		if in(a) || in(b) {
+			return true
+		}
+		c := []exact.P{{X: 0, Y: 0}, {X: n, Y: 0}, {X: n, Y: n}, {X: 0, Y: n}}
+		for i := range c {
+			if exact.SegsIntersect(a, b, c[i], c[(i+1)%4]) {
+				return true
+			}
+		}
+		return false
+	}
+	t := Xf{Scale: 1}
+	cnt := 0
+	for _, n := range []int64{12, 100, 4097, 65537, 1000000, 1048570} {
+		sq := []exact.P{{X: 0, Y: 0}, {X: n, Y: 0}, {X: n, Y: n}, {X: 0, Y: n}, {X: 0, Y: 0}}
+		poly := geometry.NewPoly(t.pts(sq), nil, idxNone)
+		rect := geometry.Rect{Min: t.pt(sq[0]), Max: t.pt(sq[2])}
+		base := geometry.NewLine(t.pts([]exact.P{{X: 0, Y: 0}, {X: n, Y: 0}}), idxNone)
+		for _, da := range []int64{-1, 0, 1, 2} {
+			for _, db := range []int64{-1, 0, 1, 2} {
+				for _, top := range []int64{n, 1, 7, n / 10} {
+					for _, bot := range []int64{-1, -n/10 - 1} {
+						// line q from (n+da, top) to (n+db, bot): passes the end (n,0) of the base line / the corner of the square
+						a, b := exact.P{X: n + da, Y: top}, exact.P{X: n + db, Y: bot}
+						// and a line passing the corner (n,0) diagonally from outside
+						for vi, q := range [][2]exact.P{{a, b}, {exact.P{X: n - n/10 - da, Y: bot}, exact.P{X: n + 1, Y: 1 + db}}} {
+							if q[0].X > 1<<20 || q[1].X > 1<<20 || q[0].X < -(1<<20) || q[1].Y < -(1<<20) {
+								continue
+							}
+							line := geometry.NewLine(t.pts(q[:]), idxNone)
+							wantLL := exact.SegsIntersect(exact.P{X: 0, Y: 0}, exact.P{X: n, Y: 0}, q[0], q[1])
+							wantBox := segBox(q[0], q[1], n)
+							cnt++
+							w.Evals += 6
+							w.Nontriv++
+							w.States++
+							got := []bool{base.IntersectsLine(line), line.IntersectsLine(base), poly.IntersectsLine(line), line.IntersectsPoly(poly), rect.IntersectsLine(line), line.IntersectsRect(rect)}
+							want := []bool{wantLL, wantLL, wantBox, wantBox, wantBox, wantBox}
+							for k := range got {
+								if got[k] != want[k] {
+									k, n, vi := k, n, vi
+									w.Fail("intersects-near-miss", func() (rt.Case, string, string) {
+										return rt.Case{Kind: "nearmiss", Op: fmt.Sprint(k), Nums: []float64{float64(n), float64(q[0].X), float64(q[0].Y), float64(q[1].X), float64(q[1].Y), float64(vi)}}, fmt.Sprint(want[k]), fmt.Sprint(got[k])
+									})
+								}
+							}
+						}
+					}
+				}
+			}
+		}
+	}
+	r.Bounds["near_miss_long_segment_cases"] = cnt
+	w.Flush()
 }
